@@ -223,7 +223,9 @@ class Check:
             "wall_s": round(time.time() - self.t0, 2),
             "violations": len(self.violations),
         }
-        (EVIDENCE / f"{self.prop}.json").write_text(json.dumps(ev, indent=1, default=str))
+        evdir = EVIDENCE / "ext" if self.prop.startswith("EXT") else EVIDENCE  # extensions are not listed properties
+        evdir.mkdir(exist_ok=True)
+        (evdir / f"{self.prop}.json").write_text(json.dumps(ev, indent=1, default=str))
         if self.violations:
             print(f"{self.prop}: {len(self.violations)} violation(s), {len(self._sig_seen)} distinct signature(s)", flush=True)
             return 1
